@@ -32,6 +32,8 @@ struct Plan {
     resolvable: bool,
     /// simulated duration of the name lookup (the overall deadline keeps running meanwhile)
     dns_ms: u64,
+    /// the URL is https: the race is the same race, a TLS handshake follows on the winning connection
+    https: bool,
 }
 
 fn gen(g: &mut G) -> Plan {
@@ -76,7 +78,13 @@ fn gen(g: &mut G) -> Plan {
             1 => ConnectBehaviour::Refuse { latency_ns: lat(g) },
             _ => ConnectBehaviour::Blackhole,
         };
-        v6.push(Addr { ip: format!("2001:db8::{}", p6[i as usize]).parse().unwrap(), beh });
+        // (no draw) an IPv4-mapped IPv6 address is an IPv6 address like any other to a client that was handed
+        // it by the resolver (no plain twin of it is in the list)
+        let text = if i == 0 && (ct_ms as usize + n4 + n6) % 4 == 0 { "::ffff:192.0.2.77".to_string() } else { format!("2001:db8::{}", p6[i as usize]) };
+        if text.starts_with("::ffff") {
+            g.probe("ipv4-mapped-ipv6-address");
+        }
+        v6.push(Addr { ip: text.parse().unwrap(), beh });
     }
     for i in 0..n4 {
         let beh = match g.below(3) {
@@ -139,7 +147,9 @@ fn gen(g: &mut G) -> Plan {
         ct_ms = 1_000_000_000;
         g.probe("connect-timeout-is-duration-max");
     }
-    Plan { addrs, ct_ms, t_ms, resolvable: !g.chance(1, 25), dns_ms, ct_max }
+    // (no draw)
+    let https = (addrs.len() + ct_ms as usize / 50) % 3 == 0;
+    Plan { addrs, ct_ms, t_ms, resolvable: !g.chance(1, 25), dns_ms, ct_max, https }
 }
 
 fn expected_order(p: &Plan) -> Vec<Addr> {
@@ -166,7 +176,7 @@ struct Obs {
 
 fn caller(p: &Plan) -> Obs {
     let start = attosim::now_ns();
-    let mut rb = attohttpc::get(format!("http://{}/", HOST)).connect_timeout(if p.ct_max { Duration::MAX } else { Duration::from_millis(p.ct_ms) }).read_timeout(Duration::from_secs(5));
+    let mut rb = attohttpc::get(format!("{}://{}/", if p.https { "https" } else { "http" }, HOST)).danger_accept_invalid_certs(true).connect_timeout(if p.ct_max { Duration::MAX } else { Duration::from_millis(p.ct_ms) }).read_timeout(Duration::from_secs(5));
     if let Some(t) = p.t_ms {
         rb = rb.timeout(Duration::from_millis(t));
     }
@@ -368,10 +378,12 @@ pub fn scenario(g: &mut G, ctx: &RunCtx) -> RunReport {
     for a in &p.addrs {
         let body = a.ip.to_string();
         let seen2 = seen.clone();
+        let https = p.https;
+        let tls_log = Arc::new(Mutex::new(crate::tlspeer::TlsLog::default()));
         let factory: Option<attosim::PeerFactory> = match a.beh {
-            ConnectBehaviour::Accept { .. } => Some(Box::new(move |_i| {
+            ConnectBehaviour::Accept { .. } => Some(Box::new(move |i| {
                 let body = body.clone();
-                Box::new(HttpPeer::new(
+                let http = HttpPeer::new(
                     Arc::new(move |_r, _c| {
                         let mut s = Script::default();
                         s.acts.push(Act::Send(format!("HTTP/1.1 200 OK\r\nContent-Length: {}\r\n\r\n{}", body.len(), body).into_bytes()));
@@ -379,11 +391,16 @@ pub fn scenario(g: &mut G, ctx: &RunCtx) -> RunReport {
                         s
                     }),
                     seen2.clone(),
-                ))
+                );
+                if https {
+                    Box::new(crate::tlspeer::TlsPeer::new("good", Box::new(http), tls_log.clone(), i.conn))
+                } else {
+                    Box::new(http)
+                }
             })),
             _ => None,
         };
-        sim.add_listener(a.ip, 80, a.beh, factory);
+        sim.add_listener(a.ip, if p.https { 443 } else { 80 }, a.beh, factory);
     }
     let out = sim.run(|| caller(&p));
     let mut stats = Stats::default();
@@ -412,13 +429,14 @@ pub fn scenario(g: &mut G, ctx: &RunCtx) -> RunReport {
     let desc: Vec<String> = p.addrs.iter().map(|a| format!("{}{}", if a.ip.is_ipv6() { "6" } else { "4" }, beh(&a.beh))).collect();
     RunReport {
         verdict,
-        shape: format!("{}/ct={}/T={:?}/res={}/dns={}", desc.join(","), p.ct_ms, p.t_ms, p.resolvable, p.dns_ms),
+        shape: format!("{}/ct={}/T={:?}/res={}/dns={}/https={}", desc.join(","), p.ct_ms, p.t_ms, p.resolvable, p.dns_ms, p.https),
         nontrivial: p.addrs.len() >= 2,
         stats,
         sched_tape: out.sched_tape,
         describe: if ctx.describe {
             format!(
-                "resolver={:?} connect_timeout={}ms timeout={:?}ms resolvable={} lookup takes {}ms",
+                "{} resolver={:?} connect_timeout={}ms timeout={:?}ms resolvable={} lookup takes {}ms",
+                if p.https { "https" } else { "http" },
                 p.addrs.iter().map(|a| format!("{} {}", a.ip, beh(&a.beh))).collect::<Vec<_>>(),
                 p.ct_ms,
                 p.t_ms,
@@ -462,7 +480,7 @@ fn oracle(p: &Plan, o: &Obs, h: &History, g: &mut G) -> Verdict {
             }
             starts.push(recs.first().map(|c| c.t_start));
         }
-        if h.connects.iter().any(|c| !order.iter().any(|a| a.ip == c.addr.ip()) || c.addr.port() != 80) {
+        if h.connects.iter().any(|c| !order.iter().any(|a| a.ip == c.addr.ip()) || c.addr.port() != if p.https { 443 } else { 80 }) {
             return violation("unknown-address-dialled", format!("{:?}", h.connects.iter().map(|c| c.addr).collect::<Vec<_>>()));
         }
         let deadline_skips = |idx: usize| -> bool {
